@@ -1,8 +1,9 @@
 /-
   C17 — hwmon entries bind to the device the user named, or fail cleanly.
 
-  Model: `Fan2go/Model/Hwmon.lean` (tied to internal/hwmon/hwmon.go and the hwmon branch of
-  `initializeSensors` in internal/backend.go by the "hw" correspondence stream).
+  Model: `Fan2go/Model/Hwmon.lean` (tied to internal/hwmon/hwmon.go, the hwmon branch of
+  `initializeSensors` and the entry loops of `initializeSensors` / `initializeFans` in
+  internal/backend.go by the "hw" correspondence stream).
   Lemmas: `Fan2go/Proofs/Hwmon.lean`.
 
   Every theorem holds for EVERY platform matcher `m : String → String → Bool`
@@ -346,6 +347,167 @@ example : bindSensor ciContains (getChips skipRaws) { platform := "nct6775", ind
   C17_sensor_skips_chip_without_index ciContains (getChips skipRaws) { platform := "nct6775", index := 1 }
     (mkChip skipRaws[0]) _ (by decide) (by decide) (by decide) (by decide)
 
+/-! ## several entries in one `initializeSensors` / `initializeFans` call
+
+  `bindSensors` / `bindFans` model the loops of internal/backend.go over the configured entries
+  (tied to the real functions by the ops `hw.bindsensors` / `hw.bindfans`). The loops bind each
+  entry from scratch: entry `i` gets exactly what it would get if it were the only entry. -/
+
+/-- a sensor entry names no device: no matching chip has the index -/
+def SensorSel.NoDevice (m : String → String → Bool) (chips : List Chip) (sel : SensorSel) : Prop :=
+  ∀ c ∈ chips, m sel.platform c.platform = true → lookupTemp c.temps sel.index = none
+
+/-- a fan entry names no device: no fan of a matching chip passes the selector -/
+def FanSel.NoDevice (m : String → String → Bool) (chips : List Chip) (sel : FanSel) : Prop :=
+  ∀ c ∈ chips, m sel.platform c.platform = true → ∀ f ∈ c.fans, fanOk sel f = false
+
+/-- **C17 (sensors, independent entries).** The call succeeds with inputs `ps` iff there is one
+    input per entry and entry `i` ON ITS OWN is bound to `ps[i]`. -/
+theorem C17_sensors_independent (m : String → String → Bool) (chips : List Chip)
+    (sels : List SensorSel) (ps : List String) :
+    bindSensors m chips sels = .ok ps ↔
+      ps.length = sels.length ∧
+      ∀ i (h₁ : i < sels.length) (h₂ : i < ps.length), bindSensor m chips sels[i] = .ok ps[i] := by
+  rw [bindSensors_ok_iff, map_eq_map_ok_iff]
+
+/-- the same, as one equation between lists -/
+theorem C17_sensors_independent_map (m : String → String → Bool) (chips : List Chip)
+    (sels : List SensorSel) (ps : List String) :
+    bindSensors m chips sels = .ok ps ↔ sels.map (bindSensor m chips) = ps.map Res.ok :=
+  bindSensors_ok_iff m chips sels ps
+
+/-- **C17 (sensors, first failure).** The call never panics; it fails iff some entry names no
+    device; and the error then carries the position of the FIRST such entry (every entry before
+    it has a device). -/
+theorem C17_sensors_first_failure (m : String → String → Bool) (chips : List Chip) (sels : List SensorSel) :
+    (∀ s, bindSensors m chips sels ≠ .panic s) ∧
+    ((∃ e, bindSensors m chips sels = .err e) ↔ ∃ sel ∈ sels, sel.NoDevice m chips) ∧
+    (∀ e, bindSensors m chips sels = .err e ↔
+      ∃ pre sel post, sels = pre ++ sel :: post ∧ (∀ s ∈ pre, ∃ p, bindSensor m chips s = .ok p) ∧
+        sel.NoDevice m chips ∧ e = s!"no-hwmon-device@{pre.length}") := by
+  refine ⟨?_, ?_, ?_⟩
+  · intro s h
+    obtain ⟨sel, _, hp⟩ := bindEntriesLoop_panic h
+    exact bindSensor_ne_panic m chips sel s hp
+  · unfold bindSensors
+    rw [bindEntriesLoop_fails_iff _ _ _ _ _ (fun sel s => bindSensor_ne_panic m chips sel s)]
+    simp only [bindSensor_err_iff, SensorSel.NoDevice]
+  · intro e
+    unfold bindSensors
+    rw [bindEntriesLoop_err_iff]
+    simp only [bindSensor_err_iff, SensorSel.NoDevice, Nat.zero_add, errAt_sensor]
+
+/-- **C17 (sensors, nothing leaks between entries).** Given a successful call:
+    (1) any call made only of entries of this call succeeds too (removing, permuting or repeating
+        entries cannot make an entry lose its device);
+    (2) if entry `i` of this call and entry `j` of any other successful call (on the same chips)
+        are the same configuration entry, both are bound to the same input — the one the entry
+        gets on its own; the other entries of either call are irrelevant. -/
+theorem C17_sensors_no_leak (m : String → String → Bool) (chips : List Chip)
+    (sels : List SensorSel) (ps : List String) (h : bindSensors m chips sels = .ok ps) :
+    (∀ sels', (∀ sel ∈ sels', sel ∈ sels) → ∃ ps', bindSensors m chips sels' = .ok ps') ∧
+    (∀ (sels' : List SensorSel) (ps' : List String) (i j : Nat) (sel : SensorSel), bindSensors m chips sels' = .ok ps' →
+        sels[i]? = some sel → sels'[j]? = some sel →
+        ∃ p, ps[i]? = some p ∧ ps'[j]? = some p ∧ bindSensor m chips sel = .ok p) := by
+  rw [bindSensors_ok_iff] at h
+  refine ⟨fun sels' hsub => ?_, fun sels' ps' i j sel h' hi hj => ?_⟩
+  · obtain ⟨ps', hps'⟩ := map_eq_map_ok_of_subset h hsub
+    exact ⟨ps', (bindSensors_ok_iff m chips sels' ps').2 hps'⟩
+  · exact map_eq_map_ok_no_leak h ((bindSensors_ok_iff m chips sels' ps').1 h') hi hj
+
+/-- **C17 (fans, independent entries).** The call succeeds with bindings `bs` iff there is one
+    binding per entry and entry `i` ON ITS OWN is bound to `bs[i]`. -/
+theorem C17_fans_independent (m : String → String → Bool) (chips : List Chip)
+    (sels : List FanSel) (bs : List FanBinding) :
+    bindFans m chips sels = .ok bs ↔
+      bs.length = sels.length ∧
+      ∀ i (h₁ : i < sels.length) (h₂ : i < bs.length), bindFan m chips sels[i] = .ok bs[i] := by
+  rw [bindFans_ok_iff, map_eq_map_ok_iff]
+
+theorem C17_fans_independent_map (m : String → String → Bool) (chips : List Chip)
+    (sels : List FanSel) (bs : List FanBinding) :
+    bindFans m chips sels = .ok bs ↔ sels.map (bindFan m chips) = bs.map Res.ok :=
+  bindFans_ok_iff m chips sels bs
+
+/-- **C17 (fans, first failure).** The call never panics; it fails iff some entry names no
+    device; the error carries the position of the FIRST such entry. -/
+theorem C17_fans_first_failure (m : String → String → Bool) (chips : List Chip) (sels : List FanSel) :
+    (∀ s, bindFans m chips sels ≠ .panic s) ∧
+    ((∃ e, bindFans m chips sels = .err e) ↔ ∃ sel ∈ sels, sel.NoDevice m chips) ∧
+    (∀ e, bindFans m chips sels = .err e ↔
+      ∃ pre sel post, sels = pre ++ sel :: post ∧ (∀ s ∈ pre, ∃ b, bindFan m chips s = .ok b) ∧
+        sel.NoDevice m chips ∧ e = s!"no-hwmon-fan-matched@{pre.length}") := by
+  refine ⟨?_, ?_, ?_⟩
+  · intro s h
+    obtain ⟨sel, _, hp⟩ := bindEntriesLoop_panic h
+    exact bindFan_ne_panic m chips sel s hp
+  · unfold bindFans
+    rw [bindEntriesLoop_fails_iff _ _ _ _ _ (fun sel s => bindFan_ne_panic m chips sel s)]
+    simp only [bindFan_err_iff, FanSel.NoDevice]
+  · intro e
+    unfold bindFans
+    rw [bindEntriesLoop_err_iff]
+    simp only [bindFan_err_iff, FanSel.NoDevice, Nat.zero_add, errAt_fan]
+
+/-- **C17 (fans, nothing leaks between entries).** As `C17_sensors_no_leak`. -/
+theorem C17_fans_no_leak (m : String → String → Bool) (chips : List Chip)
+    (sels : List FanSel) (bs : List FanBinding) (h : bindFans m chips sels = .ok bs) :
+    (∀ sels', (∀ sel ∈ sels', sel ∈ sels) → ∃ bs', bindFans m chips sels' = .ok bs') ∧
+    (∀ (sels' : List FanSel) (bs' : List FanBinding) (i j : Nat) (sel : FanSel), bindFans m chips sels' = .ok bs' →
+        sels[i]? = some sel → sels'[j]? = some sel →
+        ∃ b, bs[i]? = some b ∧ bs'[j]? = some b ∧ bindFan m chips sel = .ok b) := by
+  rw [bindFans_ok_iff] at h
+  refine ⟨fun sels' hsub => ?_, fun sels' bs' i j sel h' hi hj => ?_⟩
+  · obtain ⟨bs', hbs'⟩ := map_eq_map_ok_of_subset h hsub
+    exact ⟨bs', (bindFans_ok_iff m chips sels' bs').2 hbs'⟩
+  · exact map_eq_map_ok_no_leak h ((bindFans_ok_iff m chips sels' bs').1 h') hi hj
+
+/-- every path triple of a successful `initializeFans` lies in ONE directory: that of a matching
+    chip (for well-formed chips, i.e. everything `GetChips` returns) -/
+theorem C17_fans_paths_in_matching_chip (m : String → String → Bool) (chips : List Chip)
+    (hwf : ∀ c ∈ chips, c.WF) (sels : List FanSel) (bs : List FanBinding)
+    (h : bindFans m chips sels = .ok bs) (i : Nat) (sel : FanSel) (b : FanBinding)
+    (hi : sels[i]? = some sel) (hb : bs[i]? = some b) :
+    ∃ c ∈ chips, m sel.platform c.platform = true ∧ ∃ f ∈ c.fans, fanOk sel f = true ∧
+      b.rpmInputPath = c.path ++ "/" ++ ("fan" ++ toString b.rpmChannel ++ "_input") ∧
+      b.pwmPath = c.path ++ "/" ++ ("pwm" ++ toString b.pwmChannel) ∧
+      b.pwmEnablePath = c.path ++ "/" ++ ("pwm" ++ toString b.pwmChannel ++ "_enable") := by
+  obtain ⟨b', hb', _, hok⟩ := (C17_fans_no_leak m chips sels bs h).2 sels bs i i sel h hi hi
+  rw [hb] at hb'; cases hb'
+  obtain ⟨c, hc, hm, f, hf, hfok, rfl⟩ := bindFan_sound hok
+  obtain ⟨hp, _⟩ := hwf c hc f hf
+  refine ⟨c, hc, hm, f, hf, hfok, ?_, ?_, ?_⟩ <;> simp only [mkBinding_eq_expected, expectedBinding, hp]
+
+/-! ### non-vacuity for the multi-entry theorems -/
+
+/-- two sensor entries and three fan entries on the example tree, all bound -/
+example : bindSensors ciContains (getChips exRaws) [{ platform := "nct6775", index := 2 }, { platform := "k10temp", index := 1 }] =
+    .ok ["/sys/class/hwmon/hwmon2/temp3_input", "/sys/class/hwmon/hwmon1/temp1_input"] := by decide
+example : bindFans ciContains (getChips exRaws)
+      [{ platform := "nct6775", index := 2 }, { platform := "NCT6775", rpmChannel := 2, pwmChannel := 3 }, { platform := "nct6775", index := 2 }] =
+    .ok [expectedBinding "/sys/class/hwmon/hwmon2" 2 5 5, expectedBinding "/sys/class/hwmon/hwmon2" 1 2 3,
+         expectedBinding "/sys/class/hwmon/hwmon2" 2 5 5] := by decide
+
+/-- the first entry without a device aborts the call; later entries (bindable or not) are not looked at -/
+example : bindSensors ciContains (getChips exRaws)
+      [{ platform := "nct6775", index := 1 }, { platform := "k10temp", index := 2 }, { platform := "zzz", index := 1 }] =
+    .err "no-hwmon-device@1" := by decide
+example : bindFans ciContains (getChips exRaws)
+      [{ platform := "nct6775", index := 1 }, { platform := "nct6775", index := 2 }, { platform := "k10temp", index := 1 }, { platform := "nct6775", index := 1 }] =
+    .err "no-hwmon-fan-matched@2" := by decide
+
+/-- the hypotheses of the `*_no_leak` theorems are satisfiable: the `nct6775 / index 2` entry gets the
+    same device at position 0 of one call and at position 1 of another -/
+example : ∃ b, (([expectedBinding "/sys/class/hwmon/hwmon2" 2 5 5, expectedBinding "/sys/class/hwmon/hwmon2" 1 2 3,
+         expectedBinding "/sys/class/hwmon/hwmon2" 2 5 5] : List FanBinding)[0]? = some b) ∧
+      ([expectedBinding "/sys/class/hwmon/hwmon2" 1 2 2, expectedBinding "/sys/class/hwmon/hwmon2" 2 5 5] : List FanBinding)[1]? = some b ∧
+      bindFan ciContains (getChips exRaws) { platform := "nct6775", index := 2 } = .ok b :=
+  (C17_fans_no_leak ciContains (getChips exRaws)
+      [{ platform := "nct6775", index := 2 }, { platform := "NCT6775", rpmChannel := 2, pwmChannel := 3 }, { platform := "nct6775", index := 2 }]
+      _ (by decide)).2
+    [{ platform := "nct6775", index := 1 }, { platform := "nct6775", index := 2 }] _ 0 1 { platform := "nct6775", index := 2 }
+    (by decide) (by decide) (by decide)
+
 #print axioms C17_fanOk_iff
 #print axioms C17_getChips_wf
 #print axioms C17_fan_paths
@@ -360,6 +522,15 @@ example : bindSensor ciContains (getChips skipRaws) { platform := "nct6775", ind
 #print axioms C17_sensor_by_index
 #print axioms C17_sensor_perm_invariant
 #print axioms C17_sensor_perm_invariant'
+#print axioms C17_sensors_independent
+#print axioms C17_sensors_independent_map
+#print axioms C17_sensors_first_failure
+#print axioms C17_sensors_no_leak
+#print axioms C17_fans_independent
+#print axioms C17_fans_independent_map
+#print axioms C17_fans_first_failure
+#print axioms C17_fans_no_leak
+#print axioms C17_fans_paths_in_matching_chip
 
 end Hwmon
 end Fan2go
